@@ -74,6 +74,34 @@ func decidingConds(fn *ssa.Function, b *ssa.BasicBlock) []struct {
 	return out
 }
 
+// phiSelectors: the conditions of the branches that lie between the immediate dominator of a φ's block and that
+// block — an over-approximation of the tests that select which of the φ's values arrives.
+func phiSelectors(ph *ssa.Phi) []ssa.Value {
+	B := ph.Block()
+	D := B.Idom()
+	if D == nil {
+		return nil
+	}
+	var out []ssa.Value
+	seen := map[*ssa.BasicBlock]bool{B: true}
+	work := append([]*ssa.BasicBlock{}, B.Preds...)
+	for len(work) > 0 {
+		x := work[len(work)-1]
+		work = work[:len(work)-1]
+		if seen[x] || !D.Dominates(x) {
+			continue
+		}
+		seen[x] = true
+		if ifi, ok := lastInstr(x).(*ssa.If); ok {
+			out = append(out, ifi.Cond)
+		}
+		if x != D {
+			work = append(work, x.Preds...)
+		}
+	}
+	return out
+}
+
 // relayedDecision: cond is (a negation of) a φ whose incoming values are all constants. If exactly one
 // predecessor supplies the value that makes the branch go the wanted way, the deciding conditions of that
 // predecessor are returned; nil when cond is not such a relay (or is ambiguous).
@@ -163,6 +191,8 @@ func runC03(c *Ctx) {
 	lockDecisionRecords(c, "R4")
 	objectIDPushNeedsLocalObject(c, "R4")
 	c03TusResume(c, "R13")
+	actionSetsCopiedFromTheirOwn(c, "R12")
+	pushScannerUnfiltered(c, "R1")
 	up := p.Fn("commands", "(*uploadContext).UploadPointers")
 	prep := p.Fn("commands", "(*uploadContext).prepareUpload")
 	if up == nil || prep == nil {
@@ -211,30 +241,47 @@ func runC03(c *Ctx) {
 				continue
 			}
 			nApp++
-			for _, dc := range decidingConds(prep, b) {
-				desc := describeCond(dc.Cond)
-				allowed := false
-				switch x := dc.Cond.(type) {
+			var allowedCond func(v ssa.Value, d int) bool
+			allowedCond = func(v ssa.Value, d int) bool {
+				v, _ = stripNot(v)
+				switch x := v.(type) {
 				case *ssa.Call:
 					n := CalleeName(&x.Call)
 					if n == "(tools.StringSet).Contains" || n == "(*commands.uploadContext).HasUploaded" {
 						if _, f, _, ok := FieldOf(x.Call.Args[len(x.Call.Args)-1]); ok && f == "Oid" {
-							allowed = true
+							return true
 						}
 					}
-					if n == "(*commands.lockVerifier).LockedByThem" || n == "(*commands.lockVerifier).Enabled" {
-						allowed = true
-					}
+					return n == "(*commands.lockVerifier).LockedByThem" || n == "(*commands.lockVerifier).Enabled"
 				case *ssa.BinOp:
 					if _, f, _, ok := FieldOf(x.X); ok && f == "Size" {
 						if k, isK := ConstInt(x.Y); isK && k == 0 && (x.Op == token.EQL || x.Op == token.NEQ) {
-							allowed = true
+							return true
 						}
 					}
 				case *ssa.Phi:
-					// canUpload: φ of true and !Enabled()
-					allowed = x.Comment == "canUpload"
+					// a flag such as canUpload (φ of true and !Enabled()): every value it can take and every
+					// test that selects among them is one of the documented reasons
+					if d > 3 {
+						return false
+					}
+					for _, e := range x.Edges {
+						if _, isC := ConstBool(e); !isC && !allowedCond(e, d+1) {
+							return false
+						}
+					}
+					for _, sel := range phiSelectors(x) {
+						if !allowedCond(sel, d+1) {
+							return false
+						}
+					}
+					return true
 				}
+				return false
+			}
+			for _, dc := range decidingConds(prep, b) {
+				desc := describeCond(dc.Cond)
+				allowed := allowedCond(dc.Cond, 0)
 				c.Check(allowed, "R1", "prepareUpload:skip-condition:"+desc, p.InstrPos(dc.If), "documented reason to leave a pointer out", "a scanned pointer can be left out of the upload for a reason that is not one of: seen in this call, already uploaded, size 0, locked by another user with verification enabled ("+desc+")")
 			}
 		}
@@ -833,6 +880,7 @@ func c03Verify(c *Ctx) {
 }
 
 var c03Canaries = []Canary{
+	{Name: "r6-object-id-push-without-local-object", ExpectKey: "C03.R4#push-object-id:missing-local-object-is-fatal", Edits: []Edit{{File: "commands/command_push.go", Find: "\t\t\tExitWithError(errors.Wrap(err, tr.Tr.Get(\"Unable to find local media path:\")))\n\t\t}\n\n\t\tstat, err := os.Stat(mp)\n\t\tif err != nil {\n\t\t\tExitWithError(errors.Wrap(err, tr.Tr.Get(\"Unable to stat local media path\")))\n\t\t}\n\n", Repl: "\t\t\tExitWithError(errors.Wrap(err, tr.Tr.Get(\"Unable to find local media path:\")))\n\t\t}\n\n\t\t// An object that is not in the local storage is left to the\n\t\t// transfer queue, which reports it with the other missing\n\t\t// objects and honours lfs.allowincompletepush.\n\t\tvar size int64\n\t\tif stat, err := os.Stat(mp); err == nil {\n\t\t\tsize = stat.Size()\n\t\t} else if !os.IsNotExist(err) {\n\t\t\tExitWithError(errors.Wrap(err, tr.Tr.Get(\"Unable to stat local media path\")))\n\t\t}\n\n"}, {File: "commands/command_push.go", Find: "\t\t\tName: mp,\n\t\t\tPointer: &lfs.Pointer{\n\t\t\t\tOid:  oid,\n\t\t\t\tSize: stat.Size(),\n\t\t\t},\n\t\t}\n\t}\n", Repl: "\t\t\tName: mp,\n\t\t\tPointer: &lfs.Pointer{\n\t\t\t\tOid:  oid,\n\t\t\t\tSize: size,\n\t\t\t},\n\t\t}\n\t}\n"}}},
 	{Name: "r5-case-folded-ref-names", ExpectKey: "C03.R6", Edits: []Edit{{File: "lfs/gitscanner_remotes.go", Find: "\t\tif actualRemoteRefsSet.Contains(cachedRef.Name) {", Repl: "\t\tif actualRemoteRefsSet.Contains(cachedRef.Name + \"\") || actualRemoteRefsSet.Contains(cachedRef.Sha) {"}}},
 	{Name: "r4-rel-drops-lookup-error", ExpectKey: "C03.R12", Edits: []Edit{{File: "tq/transfer.go", Find: "\ta, err := t.Actions.Get(name)\n\tif a != nil || err != nil {", Repl: "\ta, err := t.Actions.Get(name)\n\tif a != nil {"}}},
 	{Name: "skip-small-files", ExpectKey: "C03.R1#prepareUpload:skip-condition", Edits: []Edit{{File: "commands/uploader.go", Find: "		if uniqOids.Contains(p.Oid) || c.HasUploaded(p.Oid) || p.Size == 0 {", Repl: "		if uniqOids.Contains(p.Oid) || c.HasUploaded(p.Oid) || p.Size == 0 || len(p.Name) > 4000 {"}}},
